@@ -242,6 +242,26 @@ class _Lower:
             return L(ast.Constant(value="<f-string>"))
         if t == "NewExprNode":
             return L(ast.Call(func=L(ast.Name(id="__new__", ctx=ast.Load())), args=[L(ast.Constant(value=self.type_name(n.cppclass)))], keywords=[]))
+        if t == "ComprehensionNode":
+            # [e for x in it if c] / {k: v for ...} / {e for ...}: one generator, optional conditions (nested IfStatNodes) around the append node
+            loop = n.loop
+            if type(loop).__name__ != "ForInStatNode":
+                raise Unsupported("comprehension over %s" % type(loop).__name__)
+            seq = loop.iterator.sequence if hasattr(loop.iterator, "sequence") else loop.iterator
+            body, ifs = loop.body, []
+            while type(body).__name__ == "IfStatNode" and len(body.if_clauses) == 1 and body.else_clause is None:
+                ifs.append(self.expr(body.if_clauses[0].condition))
+                body = body.if_clauses[0].body
+            gen = ast.comprehension(target=self.expr(loop.target, store=True), iter=self.expr(seq), ifs=ifs, is_async=0)
+            bt = type(body).__name__
+            if bt == "DictComprehensionAppendNode":
+                di = getattr(body, "dict_item", None)
+                return L(ast.DictComp(key=self.expr(di.key if di is not None else body.key_expr), value=self.expr(di.value if di is not None else body.value_expr), generators=[gen]))
+            if bt == "ComprehensionAppendNode":
+                kind = str(getattr(n, "type", ""))
+                elt = self.expr(body.expr)
+                return L(ast.SetComp(elt=elt, generators=[gen])) if "set" in kind else L(ast.ListComp(elt=elt, generators=[gen]))
+            raise Unsupported("comprehension body %s" % bt)
         if t == "SliceIndexNode":
             return L(ast.Subscript(value=self.expr(n.base), slice=L(ast.Slice(lower=self.expr(n.start) if n.start is not None else None,
                                                                                upper=self.expr(n.stop) if n.stop is not None else None, step=None)), ctx=ctx))
